@@ -51,7 +51,7 @@ CONSTANTS FKinds,      \* token kinds the generator may use
           FMaxDepth,   \* maximal block nesting
           FBits,       \* run-time: number of flag() calls that may return True or False (later calls return False)
           FMaxTicks,   \* run-time: a run is cut when a loop body is entered for the (FMaxTicks+1)-th time
-          FBug,        \* sensitivity: "none" | "guard_reversed" | "guard_removed" | "visit_once" | "assign_appends"
+          FBug,        \* sensitivity: "none" | "guard_reversed" | "guard_removed" | "visit_once" | "assign_appends" | "shared_fake_nodes"
           FFixed       \* names of proposed repairs applied to the code under test ({} = as found)
 
 Tok(t, c, d) == [t |-> t, c |-> c, d |-> d]
@@ -244,8 +244,10 @@ ImplOriginGuard(current, constraint_set) ==
 \* "b" the right operand of and / or)
 ImplAddSingle(st, leaf, nk) ==
     LET current == ImplResolveOrigin(st, st.cur.x)                          \* :1064 get_origin + _resolve_origin
-        \* :1076 node = (node, constraint); with proposed/C02-fix-5.diff the key is unique per application
-        key == <<nk[1], nk[2], leaf.id, leaf.ninv, IF "fresh_fake_nodes" \in st.fx THEN Len(st.fk) + 1 ELSE 0>>
+        \* :1079 node = (node, constraint, len(self.definition_node_to_value)): unique per application since repair a080673
+        \* ("fresh_fake_nodes", proposed/C02-fix-5.diff); before it the key was (node, constraint) -- kept as the seeded bug
+        \* "shared_fake_nodes" of the sensitivity cfg sens_oldkey
+        key == <<nk[1], nk[2], leaf.id, leaf.ninv, IF "fresh_fake_nodes" \in st.fx /\ FBug # "shared_fake_nodes" THEN Len(st.fk) + 1 ELSE 0>>
         old == {j \in 1..Len(st.fk) : st.fk[j].key = key}
         j == IF old = {} THEN Len(st.fk) + 1 ELSE CHOOSE k \in old : TRUE
         node == [key |-> key, defs |-> Uniq(st.cur.x), con |-> leaf.con]    \* :1077 _ConstrainedValue(def_nodes, [constraint])
@@ -421,6 +423,8 @@ Dev_SavedAlternativesConjoined(case, u, o) ==
 \*    NO_RETURN_VALUE placeholder and caches what was computed from it, so a read after the inner test can resolve to Never.
 \*    Class = the objects lost by the model of the code as found and kept by the model in which every application creates
 \*    its own node (proposed/C02-fix-5.diff), alone or together with repair 4.
+\*    REPAIRED in /repo by a080673: every real cfg has "fresh_fake_nodes" in FFixed, so this class is empty and excuses
+\*    nothing (a regression is viol:FlowN1); the old keying lives on as FBug = "shared_fake_nodes" (sens_oldkey.cfg).
 Dev_FakeNodeReusedOnRevisit(case, u, o) ==
     /\ ~FlowKeptWith(case, u, o, {})
     /\ FlowKeptWith(case, u, o, {"fresh_fake_nodes"}) \/ FlowKeptWith(case, u, o, {"fresh_fake_nodes", "alternatives_not_conjoined"})
